@@ -208,3 +208,33 @@ Proof.
   right. destruct (try_join_spec _ _ _ _ EJ) as (c & lo & ll & rl & -> & -> & ->).
   exists (rev front), c, lo, ll, rl. split; [apply rev_two; exact ER|reflexivity].
 Qed.
+
+(* ---- arena.read_n: the allocation, the delivered bytes, the remainder given back ---- *)
+Lemma update_nth_id {A} (f : A -> A) c l d : f (nth c l d) = nth c l d -> update_nth c f l = l.
+Proof.
+  revert c. induction l as [|x l IH]; intros c H; [destruct c; reflexivity|].
+  destruct c; cbn [update_nth nth] in *; [now rewrite H|now rewrite IH].
+Qed.
+Lemma heap_truncate_id h c top : nlen (cdata (chunk_at h c)) <= top -> heap_truncate h c top = h.
+Proof.
+  intros H. unfold heap_truncate. apply (update_nth_id _ c h no_chunk). fold (chunk_at h c).
+  rewrite nfirstn_all by exact H. now destruct (chunk_at h c).
+Qed.
+
+Lemma arena_read_n_as_copy h k got : cache_ok h k -> heap_ok h -> got <> [] ->
+  arena_read_n h k got (nlen got) =
+  match arena_copy h k got None with
+  | Some (hp, kp, sp, _, _) => Some (hp, Some kp, sp, {| acount := 1; achunk := Some (kchunk kp) |})
+  | None => None
+  end.
+Proof.
+  intros Hk Hh Hne. unfold arena_read_n, arena_copy.
+  assert (Hpos : 0 < nlen got) by (destruct got; [congruence|rewrite nlen_cons; lia]).
+  destruct (nlen got =? 0) eqn:E0; [apply N.eqb_eq in E0; lia|].
+  rewrite N.ltb_irrefl. destruct got as [|b0 got0] eqn:Eg; [congruence|]. rewrite <- Eg in *.
+  destruct (alloc_cache h k (nlen got)) as [[h1 k1]|] eqn:EA; [|reflexivity].
+  destruct (alloc_cache_spec _ _ _ _ _ Hk Hh EA) as ((Hc1 & Hd1 & _) & _ & _ & _).
+  cbn [merge_ref_or_create kchunk]. f_equal. f_equal. f_equal. f_equal.
+  apply heap_truncate_id. rewrite chunk_at_poke_same by exact Hc1. cbn [cdata].
+  rewrite <- Hd1, poke_append, nlen_app. lia.
+Qed.
